@@ -128,6 +128,15 @@ impl<F: AsyncFileSystem + Sync> Server<F> {
         let mut ctx = SrvContext::<F, S>::new(in_header, r, w);
         self.remap_ctx_ids(&mut ctx)?;
         if ctx.in_header.len > (MAX_BUFFER_SIZE + BUFFER_HEADER_SIZE)
+            && (ctx.in_header.opcode == Opcode::Forget as u32
+                || ctx.in_header.opcode == Opcode::BatchForget as u32)
+        {
+            // Forget and batch-forget do not require reply (same as the sync path).
+            return Err(Error::InvalidMessage(io::Error::from_raw_os_error(
+                libc::EOVERFLOW,
+            )));
+        }
+        if ctx.in_header.len > (MAX_BUFFER_SIZE + BUFFER_HEADER_SIZE)
             || ctx.w.available_bytes() < size_of::<OutHeader>()
         {
             return ctx
